@@ -75,6 +75,11 @@ def gen_family(seed, idx):
     if rng.chance(0.25) and supports_shots_none(subject):
         subject["shots"] = None
     init_state = rng.weighted([(False, 62), (True, 26), ("blank", 12)])
+    if sim == "PureFockSimulator" and rng.chance(0.12):
+        # batch programs: the sub-programs are caller-owned objects held as a parameter and executed by nested
+        # `execute` calls, so every crash point of a nested execution is a crash point of the outer one
+        subject = gen.gen_batch(Rng(seed, "c12-batch", idx))
+        init_state = False
     ops = []
     for _ in range(rng.randrange(0, 3)):
         ops.append({"op": rng.pick(["validate", "copy", "as_code", "repr", "eq", "nest", "blackbird", "execute"])})
@@ -245,6 +250,8 @@ def _same(a, b):
         return type(a) is type(b) and len(a) == len(b) and all(_same(x, y) for x, y in zip(a, b))
     if isinstance(a, dict) and isinstance(b, dict):
         return list(a) == list(b) and all(_same(a[k], b[k]) for k in a)
+    if hasattr(a, "instructions") and hasattr(b, "instructions"):  # sub-programs held as parameters
+        return len(a.instructions) == len(b.instructions) and all(type(x) is type(y) and x.modes == y.modes and list(x.params) == list(y.params) and all(_same(x.params[k], y.params[k]) for k in x.params) for x, y in zip(a.instructions, b.instructions))
     return type(a) is type(b) and a == b
 
 
@@ -652,6 +659,8 @@ def features(sc):
         f.add("initial_state")
     if sc["subject"]["shots"] is None:
         f.add("shots_none")
+    if sc["subject"].get("batch"):
+        f.add("batch_subprograms")
     return f
 
 
@@ -672,7 +681,7 @@ def run_index(seed, idx, tier):
         for f in feats:
             counters.setdefault("reach", {})[f] = 1
         rec["counters"] = counters
-        rec["nontrivial"] = bool(rec["fired"] or feats & {"string_params", "callable_params", "conditions", "initial_state"})
+        rec["nontrivial"] = bool(rec["fired"] or feats & {"string_params", "callable_params", "conditions", "initial_state", "batch_subprograms"})
         rec.pop("stats", None)
         if rec["status"] == "violation":
             rec["scenario"] = shrink(sc, rec["sig"])
